@@ -31,7 +31,7 @@ def cache_mode(recs):
     h = 0
     for s, t, l in recs:
         h = (h * 31 + 7 * s[0] + 13 * s[1] + len(str(t)) + 3 * len(str(l))) % 1000003
-    return (h + len(recs)) % 6
+    return (h + len(recs)) % 7
 
 
 def mk_ann(tb, recs, uri=None, modality=None, mode=None):
@@ -40,12 +40,27 @@ def mk_ann(tb, recs, uri=None, modality=None, mode=None):
     0 never read; 1 fully read (clean caches); 2 first half read, second half inserted afterwards
     (stale timeline cache, dirty labels); 3 fully read with an extra segment that is then deleted
     (stale timeline cache and a cached label that no longer occurs); 4 first half read, second half merged in place
-    with update(), one record at a time (same insertion order); 5 built by from_records."""
+    with update(), one record at a time (same insertion order); 5 built by from_records; 6 every other record first
+    inserted under a wrong label, every query called once, then corrected by one in-place update() carrying the right
+    labels for those (segment, track) pairs."""
     from pyannote.core import Annotation
     mode = cache_mode(recs) if mode is None else mode
     if mode == 5:
         return Annotation.from_records(((tb.S(s), t, l) for s, t, l in recs), uri=uri, modality=modality)
     a = Annotation(uri=uri, modality=modality)
+    if mode == 6:
+        fix = Annotation(uri="zz_other_uri")
+        last = {}
+        for i, (s, t, l) in enumerate(recs):
+            last[(tuple(s), repr(t))] = i
+        for i, (s, t, l) in enumerate(recs):
+            wrong = i % 2 == 0 and last[(tuple(s), repr(t))] == i
+            a[tb.S(s), t] = "zz_wrong_label" if wrong else l
+            if wrong:
+                fix[tb.S(s), t] = l
+        _prime_all(a)
+        a.update(fix)
+        return a
     half = len(recs) // 2 if mode in (2, 4) else len(recs)
     for s, t, l in recs[:half]:
         a[tb.S(s), t] = l
